@@ -523,20 +523,32 @@ def mq_campaign(ctx, n):
             for t in topics:
                 d = rng.choice([{}, {'k': rng.randint(0, 9)}, {'cpu': 'upstream', 'n': [1, 2]}, {'meta': {'id': rng.randint(0, 99)}, 'v': None}])
                 fr.append({'t': t, 'data': d, 'img': rng.choice([None, None, 'BGR', 'GRAY'])})
-            cases.append({'kind': 'mq', 'frames': fr, 'metrics': rng.choice([False, False, True, 'addr']), 'filter': rng.random() < 0.4, 'jpg': rng.choice([False, None, True])})
+            for f in fr:
+                if f['img']: f['ro'] = rng.random() < 0.5; f['seed'] = rng.randrange(10**6)
+            # jpg: False (always raw) | True (always jpg) | 'asis' (OUTPUTS_JPG=null: a frame goes out the way it is held - raw unless it already carries an encoding);
+            # mq_log: the logging option of MQ.send (builds its text from the frames before they are encoded)
+            cases.append({'kind': 'mq', 'frames': fr, 'metrics': rng.choice([False, False, True, 'addr']), 'filter': rng.random() < 0.4, 'jpg': rng.choice([False, 'asis', 'asis', True]),
+                          'mq_log': rng.choice([False, False, 'image', 'all', 'metrics', 'pretty', 'data'])})
     for c in cases:
         w = fakezmq.World(); fakezmq.install(w)
         from openfilter.filter_runtime import mq as M
         fakezmq.quiet_metrics(M)
         viol = []
         try:
-            pub = M.MQ(None, 'ipc://c09p', 'p', outs_metrics=('ipc://c09m' if c['metrics'] == 'addr' else c['metrics']), outs_filter=c['filter'], outs_jpg=c['jpg'], mq_log=False)
+            asis = c['jpg'] in (None, 'asis')
+            M.OUTPUTS_JPG = None if asis else True      # the module constant OUTPUTS_JPG=null is the only way to the as-is mode (a None argument means 'use the default')
+            pub = M.MQ(None, 'ipc://c09p', 'p', outs_metrics=('ipc://c09m' if c['metrics'] == 'addr' else c['metrics']), outs_filter=c['filter'], outs_jpg=None if asis else c['jpg'],
+                       mq_log=c.get('mq_log', False))
             con = M.MQ([('ipc://c09p', [('*', '*')])], None, 'c', outs_metrics=False, outs_filter=False, mq_log=False)
             sent = {}
             for f in c['frames']:
                 if f['img'] is None: sent[f['t']] = Frame(copy.deepcopy(f['data']))
-                else: sent[f['t']] = Frame(np.full((4, 6) if f['img'] == 'GRAY' else (4, 6, 3), 40, np.uint8), copy.deepcopy(f['data']), f['img'])
+                else:
+                    a = np.random.RandomState(f.get('seed', 1)).randint(0, 256, (8, 9) if f['img'] == 'GRAY' else (8, 9, 3)).astype(np.uint8)
+                    if f.get('ro'): a.flags.writeable = False
+                    sent[f['t']] = Frame(a, copy.deepcopy(f['data']), f['img'])
             before = {t: (copy.deepcopy(f.data), f.has_image) for t, f in sent.items()}
+            pixels = {t: f.image.copy() for t, f in sent.items() if f.has_image}
             got, done = None, False
             for _ in range(12):
                 w.now += 50_000_000
@@ -564,10 +576,15 @@ def mq_campaign(ctx, n):
                         if 'id' not in g: viol.append(('mq-data', f'_filter without id: {g!r}'[:200]))
                     elif g != d0: viol.append(('mq-data', f'{t!r}: sent data {d0!r} got {g!r}'[:300]))
                     replaced = (t == '_metrics' and c['metrics'] is True) or (t == '_filter' and c['filter'])      # the injected frame takes the topic's place
+                    if not replaced and hi and got[t].has_image and c['jpg'] is not True:
+                        # sent raw (always-raw mode, or as-is mode for a frame that carried no encoding): pixel for pixel
+                        gi = got[t].image
+                        if gi.shape != pixels[t].shape or not np.array_equal(gi, pixels[t]): viol.append(('mq-raw-pixels', f'{t!r}: a raw image (outputs_jpg={c["jpg"]}, mq_log={c.get("mq_log")}) did not arrive pixel-identical'))
                     if not replaced and got[t].has_image != hi: viol.append(('mq-presence', f'{t!r}: has_image {hi} -> {got[t].has_image}'))
         except Exception as e:
             viol.append(('exception:mq:' + errname(e), f'MQ round trip raised {type(e).__name__}: {str(e)[:120]}'))
         finally:
+            M.OUTPUTS_JPG = True
             for q in ('pub', 'con'):
                 try: locals()[q].destroy()
                 except Exception: pass
